@@ -24,6 +24,7 @@ def PinText (p : Text) : Prop := p ≠ [] ∧ p.all isAlnum = true
 instance (n : Text) : Decidable (NameText n) := by unfold NameText; infer_instance
 instance (n : Text) : Decidable (OpsText n) := by unfold OpsText; infer_instance
 instance (n : Text) : Decidable (PinText n) := by unfold PinText; infer_instance
+instance (n : Text) : Decidable (VerText n) := by unfold VerText; infer_instance
 
 /-- `(@([a-zA-Z0-9]+))?` : text and recorded pin -/
 inductive PinG : Text → Text → Prop
@@ -330,5 +331,76 @@ theorem constraint_split_bare {name pp pin : Text} (hn : NameText name) (hp : Pi
         · exact absurd h (by decide)
         · have := List.all_eq_true.mp hpin.2 '=' h; revert this; decide
   rw [parseConstraint_of_match (soRewrite_noEq hne) hm]; rfl
+
+/-- `constraint_split` for any string the `so:` rewriting leaves alone -/
+theorem constraint_split_of_fixed {name ops ver pp pin : Text} (hn : NameText name)
+    (ho : OpsText ops) (hv : VerText ver) (hp : PinG pp pin)
+    (hs : soRewrite (name ++ (ops ++ (ver ++ pp))) = name ++ (ops ++ (ver ++ pp))) :
+    parseConstraint (name ++ (ops ++ (ver ++ pp))) = ⟨name, ver, opOf ops, pin⟩ := by
+  have hm := matchPackageName_full hn ho hv hp
+  rw [parseConstraint_of_match hs hm]
+  obtain ⟨o, os, rfl⟩ := List.exists_cons_of_ne_nil ho.1
+  simp
+
+/-- the `so:` rule, general form: the string is cut at the first `=` of the operator run
+(`=`, `>=`, `<=`, …); unless what follows (up to the end, pin included) ends in `-rN`, the
+version read is `0.` followed by everything between that `=` and the pin. -/
+theorem constraint_so {name o1 rest pp pin : Text} (hn : NameText name)
+    (hso : ∃ t, name = "so:".toList ++ t) (ho1 : o1.all isOpChar = true) (hne : '=' ∉ o1)
+    (hrest : rest.all (fun c => c != '@') = true) (hp : PinG pp pin)
+    (hrel : endsWithRelease (rest ++ pp) = false) :
+    parseConstraint (name ++ (o1 ++ '=' :: (rest ++ pp))) =
+      ⟨name, "0.".toList ++ rest, opOf (o1 ++ ['=']), pin⟩ := by
+  obtain ⟨t, ht⟩ := hso
+  have ha : '=' ∉ name ++ o1 := by
+    intro h; rcases List.mem_append.mp h with h | h
+    · exact name_no_eq hn h
+    · exact hne h
+  have hs : soRewrite (name ++ (o1 ++ '=' :: (rest ++ pp))) =
+      name ++ ((o1 ++ ['=']) ++ (("0.".toList ++ rest) ++ pp)) := by
+    have := soRewrite_so (a := name ++ o1) (v := rest ++ pp) ⟨t ++ o1, by rw [ht]; simp⟩ ha
+    rw [hrel] at this
+    simp only [List.append_assoc] at this
+    rw [this]
+    simp [List.append_assoc]
+  have hops : OpsText (o1 ++ ['=']) := ⟨by simp, by simp [ho1]; decide⟩
+  have hver : VerText ("0.".toList ++ rest) := by
+    refine ⟨by simp, ?_, ?_⟩
+    · simp only [List.all_append, hrest, Bool.and_true]; decide
+    · exact startsNot_cons (by decide)
+  have hm := matchPackageName_full hn hops hver hp
+  rw [parseConstraint_of_match hs hm]
+  simp
+
+/-- the `so:` rule when the remainder ends in `-rN` (necessarily unpinned): nothing is rewritten -/
+theorem constraint_so_release {name o1 o2 ver : Text} (hn : NameText name)
+    (ho1 : o1.all isOpChar = true) (hne : '=' ∉ o1) (ho2 : o2.all isOpChar = true)
+    (hv : VerText ver) (hrel : endsWithRelease (o2 ++ ver) = true) :
+    parseConstraint (name ++ ((o1 ++ '=' :: o2) ++ ver)) = ⟨name, ver, opOf (o1 ++ '=' :: o2), []⟩ := by
+  have hops : OpsText (o1 ++ '=' :: o2) := ⟨by simp, by simp [ho1, ho2]; decide⟩
+  have key := constraint_split_of_fixed (pp := []) hn hops hv PinG.none
+  simp only [List.append_nil] at key
+  apply key
+  by_cases hso : ∃ t, name = "so:".toList ++ t
+  · have ha : '=' ∉ name ++ o1 := by
+      intro h; rcases List.mem_append.mp h with h | h
+      · exact name_no_eq hn h
+      · exact hne h
+    obtain ⟨t, ht⟩ := hso
+    have := soRewrite_so (a := name ++ o1) (v := o2 ++ ver) ⟨t ++ o1, by rw [ht]; simp⟩ ha
+    rw [hrel] at this
+    simp only [List.append_assoc, List.cons_append, if_true] at this ⊢
+    exact this
+  · apply soRewrite_noSo
+    cases h : stripPrefix "so:".toList (name ++ ((o1 ++ '=' :: o2) ++ ver)) with
+    | none => rfl
+    | some r =>
+      exfalso
+      have hno : stripPrefix "so:".toList name = none := by
+        cases h' : stripPrefix "so:".toList name with
+        | none => rfl
+        | some t => exact absurd ⟨t, stripPrefix_eq_some.mp h'⟩ hso
+      have := stripPrefix_so_name hn hno (ops_startsNot_name (x := ver) hops)
+      rw [this] at h; cases h
 
 end Apko.VersionGrammar
